@@ -91,11 +91,12 @@ def run_total(unit, only=None):
     warnings.simplefilter("ignore")
     _, d, cfgname, tier = unit
     res = core.UnitResult()
-    selfref = "dcself" in set(space.kinds_of(d))
+    selfref = bool({"dcself", "dcselft"} & set(space.kinds_of(d)))
 
     def V(clause, oc, key, detail):
         res.violation(f"{clause}|{space.show(d)}|{cfgname}|{oc}", clause, oc,
-                      dict(unit=unit, key=key, facts=dict(self_reference=selfref, config=cfgname)), detail)
+                      dict(unit=unit, key=key, facts=dict(self_reference=selfref, typing_self="dcselft" in set(space.kinds_of(d)),
+                                                          config=cfgname)), detail)
     with space.Ctx() as ctx:
         _dialects(ctx.ns)
         try:
